@@ -36,6 +36,14 @@ CHECKS = {
    "Breadth-first search to depth 3 (thorough 5, de-duplicated on the full bucket contents) over histories that insert, rewrite, blank out, remove and delete text fields (top-level and nested), from the empty and from a 6-document corpus, on warm, reopened and in-memory instances; after every batch ~500 text queries are compared with a brute-force tf-idf reference recomputed from the model (match set, scores, order, limit cut, hybrid score).",
    "bleve's standard analyser is trusted; texts and queries from the stated alphabets",
    "explicit-state BFS over write histories vs brute-force tf-idf reference", "DESIGN.md §4 C05"),
+ "C03": (True, "seqx", "model_checking",
+   "Every write history up to depth 3 (thorough 4) over an 11-symbol alphabet (no merging: the warm graph cache is state outside the buckets), from the empty shard and from 30 lattice points, for 5 (thorough 10) metric/quantiser combinations on warm and reopened instances; after every batch ~430 graph searches (queries x limits x search sizes x weights x 6 pre-filters) are checked for the safety clauses of the property against the model, and for exact k-NN in the two stated regimes; the persisted graph is checked too.",
+   "random entry vector: oracles are shape independent; product quantiser not covered; vectors from small pools",
+   "exhaustive enumeration of write histories of the real code vs reference (safety + brute-force k-NN in the exact regimes)", "DESIGN.md §4 C03"),
+ "C10": (True, "seqx", "model_checking",
+   "Every write history up to depth 4 (thorough 5) over 12 graph-hurting batches, and up to depth 2 (thorough 3) from 40 mutually equidistant points where the degree bound binds, for alpha {1.1,1.5} x degreeBound {32,64}, warm and reopened; after every batch the bucket dump is checked for node/vector/edge well-formedness, degree bound, max-id, point-store bijection and free-list disjointness, plus a full-window search.",
+   "duplicate edges not flagged; batches outside the alphabet",
+   "exhaustive enumeration of write histories of the real code with a structural invariant on the persisted state", "DESIGN.md §4 C10"),
 }
 
 props = [json.loads(l) for l in open(os.path.join(HERE, "properties.jsonl"))]
